@@ -33,6 +33,9 @@ type c08Case struct {
 	Resub   []c08Sub `json:"resub,omitempty"` // the same filters subscribed AGAIN with other parameters before the publish
 	PQ      int      `json:"pq"`
 	PR      bool     `json:"pr,omitempty"`
+	// AliasPub (v5 publisher): the publish under test travels alias-only, on an alias that was first bound to another
+	// topic and then re-bound to the topic of the test
+	AliasPub bool `json:"aliaspub,omitempty"`
 }
 
 type c08Copy struct {
@@ -78,6 +81,7 @@ func (p *c08Prop) Gen(r *Rng, i int, tier string) interface{} {
 	}
 	c.Overlap = r.Chance(40)
 	c.Self = r.Chance(30)
+	c.AliasPub = c.PV == 5 && r.Chance(35)
 	n := 1 + r.Intn(3)
 	perm := []int{0, 1, 2, 3, 4}
 	for k := range perm {
@@ -147,7 +151,7 @@ func (p *c08Prop) Decode(raw json.RawMessage) (interface{}, error) {
 func (p *c08Prop) Run(ci interface{}) interface{} {
 	c := ci.(*c08Case)
 	obs := &c08Obs{Copies: []c08Copy{}}
-	b, err := NewBroker(BrokerOpts{Overlap: c.Overlap, SubsID: true})
+	b, err := NewBroker(BrokerOpts{Overlap: c.Overlap, SubsID: true, MaxTopicAlias: 5})
 	if err != nil {
 		obs.Err = err.Error()
 		return obs
@@ -240,7 +244,18 @@ func (p *c08Prop) Run(ci interface{}) interface{} {
 	}
 	publish := func(retain bool) bool {
 		comps := pub.CountOthers(mqttp.PUBCOMP)
-		_ = pub.SendL(mkPublish(pv, "t/a", payload, byte(c.PQ), retain, 33))
+		m := mkPublish(pv, "t/a", payload, byte(c.PQ), retain, 33)
+		if c.AliasPub && pv == mqttp.ProtocolV50 {
+			w := mkPublish(pv, "zz/warm", []byte{0xB1}, 0, false, 0)
+			_ = w.PropertySet(mqttp.PropertyTopicAlias, uint16(1))
+			_ = pub.SendL(w)
+			rb := mkPublish(pv, "t/a", []byte{0xB2}, 0, false, 0)
+			_ = rb.PropertySet(mqttp.PropertyTopicAlias, uint16(1))
+			_ = pub.SendL(rb)
+			_ = m.PropertySet(mqttp.PropertyTopicAlias, uint16(1))
+			_ = m.SetTopic("")
+		}
+		_ = pub.SendL(m)
 		if c.PQ == 2 {
 			return pub.WaitFor(5*time.Second, func() bool {
 				n := 0
@@ -293,7 +308,7 @@ func (p *c08Prop) Run(ci interface{}) interface{} {
 	}
 	s.mu.Lock()
 	for i, m := range s.Pubs {
-		if m.Topic() == "zz/sent" {
+		if m.Topic() == "zz/sent" || m.Topic() == "zz/warm" || (len(m.Payload()) == 1 && m.Payload()[0] == 0xB2) {
 			continue
 		}
 		cp := c08Copy{QoS: int(m.QoS()), Retain: m.Retain(), Dup: m.Dup(), Intact: m.Topic() == "t/a" && bytes.Equal(m.Payload(), payload)}
